@@ -7,10 +7,13 @@
   code before each repair (`Cfg` field = false).
 -/
 import GLua.Proofs.Coroutine
+import GLua.Proofs.CoBasics
+import GLua.Proofs.CoFrame
+import GLua.Proofs.CoSim
 import GLua.Spec.CoSpec
 
 namespace GLua.Props.C06
-open GLua GLua.Co GLua.CoScript
+open GLua GLua.Co GLua.CoScript GLua.CoSim
 
 /-! ## 1. XMoveTo -/
 
@@ -146,6 +149,57 @@ def exVararg := initCallFrameLua [none, some (.int 1), some (.int 2), some (.int
 
 example : (readRegs exVararg.1 exVararg.2.localBase 1).toOption = some [some (.int 1)] ∧
     varargVals exVararg.1 exVararg.2 1 = [some (.int 2), some (.int 3)] := by decide
+
+/-- **resume_first_binds** — FULL statement (fixed-arity *and* vararg bodies, every argument list, every `np`, every
+    layout of the resumer): the first `coResume` of a fresh thread moves the arguments above the thread object into
+    the new thread and runs `initCallFrame` there, so that
+      * the body's parameter registers (at the frame's — for `...` bodies relocated — `LocalBase`) hold the arguments
+        adjusted to the number of named parameters (missing → nil, surplus dropped), readable without a Go-nil slot;
+      * for a `...` body the surplus arguments are exactly what OP_VARARG copies (`varargVals`), in order;
+      * the resumer's stack loses exactly the arguments, every third thread is untouched. -/
+theorem resume_first_binds (cfg : Cfg) (w : World) (l th np nused fid : Nat) (va wr : Bool) (code : List Act)
+    (hl : l < w.threads.length) (hth : th < w.threads.length) (hne : l ≠ th)
+    (hT : w.th th = newThread wr false fid code) (hlb : (w.th l).lbase + 1 ≤ (w.th l).reg.length) (hu : np ≤ nused) :
+    ∃ w' f, coResumeEnter cfg w l th (some (np, va, nused)) = .ok (w', 1) ∧ w'.current = th ∧
+      (w'.th th).parent = some l ∧ (w'.th th).frames = [f] ∧ (w'.th th).cur = true ∧
+      readRegs (w'.th th).reg f.localBase np = .ok (adjust ((w.th l).reg.drop ((w.th l).lbase + 1)) (some np)) ∧
+      (va = true → varargVals (w'.th th).reg f np = ((w.th l).reg.drop ((w.th l).lbase + 1)).drop np) ∧
+      (w'.th l).reg = (w.th l).reg.take ((w.th l).lbase + 1) ∧ (w'.th l).frames = (w.th l).frames ∧
+      (∀ t, t ≠ l → t ≠ th → w'.th t = w.th t) := by
+  obtain ⟨w', h1, h2, _, _, h5, h6, h7⟩ := coResumeEnter_first_full cfg w l th np nused fid va wr code hl hth hne hT hlb
+  have hb := initCallFrameLua_binds [none] ((w.th l).reg.drop ((w.th l).lbase + 1))
+    { fid := fid, code := code, nargs := ((w.th l).reg.drop ((w.th l).lbase + 1)).length } np nused va rfl rfl rfl hu
+  simp only at hb
+  refine ⟨w', _, h1, h2, by rw [h5], by rw [h5], by rw [h5], ?_, ?_, by rw [h6], by rw [h6], h7⟩
+  · rw [h5]; exact hb.1
+  · rw [h5]; exact hb.2.1
+
+/-- the same on the level of the interpreter: entering the body after the first resume emits the manual's parameter
+    binding of the resume arguments (`entryVals`: named parameters adjusted, then — for `...` — count and surplus). -/
+theorem resume_first_entry (cfg : Cfg) (p : Prog) (w : World) (l th fid : Nat) (wr : Bool)
+    (hl : l < w.threads.length) (hth : th < w.threads.length) (hne : l ≠ th)
+    (hT : w.th th = newThread wr false fid (p.fn fid).acts) (hlb : (w.th l).lbase + 1 ≤ (w.th l).reg.length)
+    (hu : (p.fn fid).np ≤ (p.fn fid).nused) :
+    ∃ w', coResumeEnter cfg w l th (some ((p.fn fid).np, (p.fn fid).vararg, (p.fn fid).nused)) = .ok (w', 1) ∧
+      enterLua p w' th =
+        (w'.emit ("P" ++ toString fid) (entryVals (p.fn fid) ((w.th l).reg.drop ((w.th l).lbase + 1))), .run th) := by
+  obtain ⟨w', h1, _, _, _, h5, _, _⟩ := coResumeEnter_first_full cfg w l th (p.fn fid).np (p.fn fid).nused fid
+    (p.fn fid).vararg wr (p.fn fid).acts hl hth hne hT hlb
+  refine ⟨w', h1, ?_⟩
+  exact enterLua_after_init p w' th [none] ((w.th l).reg.drop ((w.th l).lbase + 1))
+    { fid := fid, code := (p.fn fid).acts, nargs := ((w.th l).reg.drop ((w.th l).lbase + 1)).length } []
+    rfl rfl rfl hu (by rw [h5]) (by rw [h5])
+
+/-- non-vacuity: `function(a, ...)` resumed with (1, 2, 3) from a `coroutine.resume` frame holding [fn | co, 1, 2, 3]. -/
+def exFirstW : World :=
+  { threads := [{ reg := [none, some (.ref 1), some (.int 1), some (.int 2), some (.int 3)], cur := true,
+                  frames := [{ isG := true, base := 0, localBase := 1, returnBase := 0, gk := .resume 0 }] },
+                newThread false false 1 []] }
+
+example : (coResumeEnter Cfg.fixed exFirstW 0 1 (some (1, true, 4))).toOption.map
+      (fun r => ((r.1.th 1).reg, (r.1.th 1).frames.map (·.localBase), (r.1.th 0).reg))
+    = some ([none, none, some (.int 2), some (.int 3), some (.int 1), none, none, none], [4],
+            [none, some (.ref 1)]) := by decide
 
 /-! ## 4. yield → resume -/
 
@@ -308,5 +362,283 @@ example : runProg Cfg.fixed exGBody 100 = ["P0:", "L0.0:T,i1,i2", "L0.1:s!dead",
 
 theorem gbody_prefix_fails :
     runProg { gbodyFix := false } exGBody 100 = ["P0:", "L0.0:", "L0.1:s!running", "R:"] := by decide
+
+/-! ## 6. history-level simulation: Model machine ⊑ Spec machine over every event history
+
+  Model machine = the interpreter `Co.step` over worlds (Parent links, Dead flags, CurrentThread, register stacks,
+  frame stacks) — the machine the C06M tie compares with the real interpreter token by token.  Spec machine =
+  `CoSpec.step` (per coroutine: status, started?, stack of pending activations; the resume chain as a stack).
+  Abstraction relation = `CoSim.Sim` / `CoSim.Live` (GLua/Proofs/CoSimDefs.lean): equal traces; the Spec's resume
+  chain is the Model's Parent chain from CurrentThread to the main thread, without repetition; threads on it below
+  the head are blocked in `coResume` ("normal"); threads off it are fresh | dead | suspended in a yield that wanted
+  `yieldNRet` results where the stack now ends; the running thread holds exactly the values the Spec is delivering.
+
+  Guard (`okProg`, decidable): acts = create/resume/wrapped call — also through pcall —, yield (also tail-called),
+  return, error, status, running, ordinary Lua calls, for-in over a wrapped coroutine (generator); coroutine ids 1..4
+  with Lua bodies (fixed or vararg); np ≤ NumUsedRegisters.  Outside the guard (host-function yields of the Go-API
+  histories, Go-function bodies) the comparison stays a run-time one (C06M tie). -/
+
+/-- **history_step_simulation** — EVERY step of the Model machine (resume enter — first and later —, refused resume,
+    yield, tail-called yield, yield outside a coroutine, body return, return to a caller, body error — plain and
+    wrapped —, wrapped call, the same under pcall incl. PCall's recovery, the iterator calls and the loop test of a
+    for-in over a wrapped coroutine, status, running, Lua call, delivery of results) from ANY state related to a Spec
+    state
+    leads to a state related to the Spec state after 0, 1 or several Spec steps: same trace so far (values delivered
+    in order and number, status strings, refusals), related continuation.  The Spec stands still (m = 0) only while a
+    Go frame (`coResume`, `pcall`) is popped or `PCall` recovers from an error, and then the measure `stut` (≤ 2)
+    decreases: between two Spec steps the Model makes at most three steps. -/
+theorem history_step_simulation {p : Prog} (hp : okProg p = true) {w : World} {mc : Co.Ctl} {s : CoSpec.St}
+    {sc : CoSpec.Ctl} (hL : Live p w mc s sc) :
+    ∃ m, Sim p (step Cfg.fixed p w mc).1 (step Cfg.fixed p w mc).2 (CoSpec.run p m s sc).1 (CoSpec.run p m s sc).2 ∧
+      (m = 0 → stut (step Cfg.fixed p w mc).1 (step Cfg.fixed p w mc).2 < stut w mc) :=
+  sim_step hp hL
+
+/-- **history_simulation** (`_partial`: guard `okProg`) — by induction over ANY number of steps, i.e. over any event
+    history a script produces with any number ≤ 4 of coroutines in any interleaving: the Model state after `n` steps
+    is related to the Spec state after some `m` steps. -/
+theorem history_simulation_partial (p : Prog) (hp : okProg p = true) (n : Nat) :
+    ∃ m, Sim p (Co.run Cfg.fixed p n (initWorld p) (.run 0)).1 (Co.run Cfg.fixed p n (initWorld p) (.run 0)).2
+      (CoSpec.run p m (CoSpec.initSt p) .exec).1 (CoSpec.run p m (CoSpec.initSt p) .exec).2 :=
+  sim_run p hp n
+
+/-- **history_traces_agree** — the observable consequence: at every point of a Model run its trace is the trace of
+    a Spec run, and a Model run that finishes does so regularly (`FinTok`: the chunk returned `R:…` or failed with an
+    error value `X:…` — never a Go panic such as a Go-nil register, a nil call frame or a negative top, never a stuck
+    state) and is a finished Spec run with exactly the same tokens: every value list delivered by every resume and yield
+    (order and number), every status string, every refusal, the final results / error value. -/
+theorem history_traces_agree (p : Prog) (hp : okProg p = true) (n : Nat) :
+    (∃ m, (Co.run Cfg.fixed p n (initWorld p) (.run 0)).1.trace = (CoSpec.run p m (CoSpec.initSt p) .exec).1.trace) ∧
+    (∀ w tok, Co.run Cfg.fixed p n (initWorld p) (.run 0) = (w, .fin tok) →
+      FinTok tok ∧ ∃ m, CoSpec.runProg p m = Co.runProg Cfg.fixed p n) := by
+  constructor
+  · obtain ⟨m, htr, _⟩ := sim_run p hp n
+    exact ⟨m, htr⟩
+  · intro w tok h
+    obtain ⟨hft, m, s, hs, htr⟩ := sim_fin p hp n w tok h
+    refine ⟨hft, m, ?_⟩
+    simp only [CoSpec.runProg, Co.runProg, hs, h, htr]
+
+/-- **history_trace_equivalence** — both directions, for whole finished runs: a token list is the outcome of a finished
+    Model run iff it is the outcome of a finished Spec run.  The new direction (Spec ⇒ Model) is a progress statement:
+    wherever the manual's coroutines terminate, gopher-lua's mechanism terminates too — it cannot hang in the
+    switching code, stop in a Go panic or lose a value on the way — and the Model stutters at most once in a row
+    (`sim_progress`). -/
+theorem history_trace_equivalence (p : Prog) (hp : okProg p = true) (toks : List String) :
+    (∃ n w tok, Co.run Cfg.fixed p n (initWorld p) (.run 0) = (w, .fin tok) ∧ Co.runProg Cfg.fixed p n = toks) ↔
+    (∃ m s tok, CoSpec.run p m (CoSpec.initSt p) .exec = (s, .fin tok) ∧ CoSpec.runProg p m = toks) := by
+  constructor
+  · rintro ⟨n, w, tok, h, ht⟩
+    obtain ⟨_, m, s, hs, htr⟩ := sim_fin p hp n w tok h
+    refine ⟨m, s, tok, hs, ?_⟩
+    rw [← ht]
+    simp only [CoSpec.runProg, Co.runProg, hs, h, htr]
+  · rintro ⟨m, s, tok, h, ht⟩
+    obtain ⟨n, w, hw, htr⟩ := sim_fin_conv p hp m s tok h
+    refine ⟨n, w, tok, hw, ?_⟩
+    rw [← ht]
+    simp only [CoSpec.runProg, Co.runProg, hw, h, htr]
+
+/-- **history_parent_chain** — in every reachable unfinished state the Parent links form a chain that starts at
+    CurrentThread, has no repetition (acyclic), ends in the main thread (the only thread on it without Parent);
+    threads off the chain have no Parent; and — for the coroutines a script can name — exactly the head of the chain
+    has status "running" and exactly the other threads on it have status "normal". -/
+theorem history_parent_chain (p : Prog) (hp : okProg p = true) (n : Nat) :
+    (∃ tok, (Co.run Cfg.fixed p n (initWorld p) (.run 0)).2 = .fin tok) ∨
+    ∃ chain : List Nat, chain.Nodup ∧
+      chain.head? = some (Co.run Cfg.fixed p n (initWorld p) (.run 0)).1.current ∧
+      ParentChain (Co.run Cfg.fixed p n (initWorld p) (.run 0)).1 chain ∧
+      (∀ t, t < 5 → t ∉ chain → ((Co.run Cfg.fixed p n (initWorld p) (.run 0)).1.th t).parent = none) ∧
+      (∀ t l, 1 ≤ t → t ≤ 4 →
+        (status Cfg.fixed (Co.run Cfg.fixed p n (initWorld p) (.run 0)).1 l t = "running" ↔
+            t = (Co.run Cfg.fixed p n (initWorld p) (.run 0)).1.current) ∧
+        (status Cfg.fixed (Co.run Cfg.fixed p n (initWorld p) (.run 0)).1 l t = "normal" ↔ t ∈ chain.tail)) :=
+  chain_run p hp n
+
+/-- non-vacuity: three coroutines — a plain one with a `...` body that yields from a nested call; a plain one that
+    probes and resumes the first (nested resume), tries to resume itself (refused: running) and ends with a tail-called
+    yield; a wrapped one that yields and then fails (the error ends the main chunk) — with statuses and refusals. -/
+def exHist : Prog :=
+  { fns := [(0, { acts := [.resume 1 false 0 [some (.int 1), some (.int 2)] none,
+                           .resume 2 false 0 [some (.int 5)] (some 1),
+                           .resume 1 false 0 [] (some 2), .status 1,
+                           .resume 2 false 1 [] none, .status 2, .resume 3 false 0 [] (some 1),
+                           .resume 1 false 0 [] none, .running, .resume 3 false 0 [] none] }),
+            (1, { np := 1, vararg := true, acts := [.yield false 2 [some (.int 7)] (some 3),
+                                                    .call 3 0 [some (.int 8)] (some 1), .ret 0 [some (.int 9)]] }),
+            (2, { np := 2, acts := [.status 1, .running, .resume 1 false 3 [some (.int 6)] (some 2),
+                                    .resume 2 false 0 [] none, .yield true 1 [some (.int 3)] none] }),
+            (3, { np := 1, acts := [.yield false 0 [] (some 0), .ret 0 [some (.int 4), some (.int 4)]] }),
+            (4, { acts := [.status 2, .yield false 0 [some (.int 1), some (.int 2)] none, .err (some (.int 9))] })],
+    cos := [(1, { body := some 1 }), (2, { body := some 2 }), (3, { wrapped := true, body := some 4 })] }
+
+example : okProg exHist = true := by decide
+
+/-- a generator: `for a, b in f_1 do … end` over a wrapped coroutine that yields (1,2), (3) and then returns nothing. -/
+def exGen : Prog :=
+  { fns := [(0, { acts := [.forin 1 2, .status 1] }),
+            (1, { acts := [.yield false 0 [some (.int 1), some (.int 2)] (some 0), .yield false 0 [some (.int 3)] none] })],
+    cos := [(1, { wrapped := true, body := some 1 })] }
+
+example : okProg exGen = true ∧
+    runProg Cfg.fixed exGen 100 =
+      ["P0:", "P1:", "L0.0:i1,i2", "L1.0:", "L0.0:i3,nil", "L1.1:nil,i3", "L0.1:s!dead", "R:"] ∧
+    CoSpec.runProg exGen 100 = runProg Cfg.fixed exGen 100 := by decide
+
+/-- … and the scripts with `pcall` around resume / wrapped calls of §4–§5 lie in the fragment as well
+    (`exWrapErr`: a wrapped coroutine fails under pcall, is probed and called again under pcall). -/
+example : okProg exWrapErr = true ∧ okProg exProg = true ∧ okProg exTail = true := by decide
+
+example : runProg Cfg.fixed exHist 200 =
+    ["P0:", "P1:i1,i1,i2", "L0.0:T,i7", "P2:i5,nil", "L2.0:s!suspended", "L2.1:i2", "L1.0:i6,nil,nil", "P3:i8",
+     "L2.2:T,nil", "L2.3:F,s!running", "L0.1:T", "L3.0:", "L1.1:i4", "L0.2:T,i9", "L0.3:s!dead", "L0.4:T",
+     "L0.5:s!dead", "P4:", "L4.0:s!dead", "L0.6:i1", "L0.7:F,s!dead", "L0.8:nil", "L4.1:", "X:i9"] ∧
+    CoSpec.runProg exHist 200 = runProg Cfg.fixed exHist 200 := by decide
+
+/-- the statement without the guard: every finished Model run is a Spec run. -/
+def history_simulation_full : Prop :=
+  ∀ (p : Prog) (n : Nat) (w : World) (tok : String), Co.run Cfg.fixed p n (initWorld p) (.run 0) = (w, .fin tok) →
+    ∃ m, CoSpec.runProg p m = Co.runProg Cfg.fixed p n
+
+/-- a script outside the guard: a coroutine asks for the status of thread 0, the MAIN thread (no Lua 5.1 script can
+    obtain that object — `coroutine.running()` is nil there —, only the Go API can). -/
+def exMainStatus : Prog :=
+  { fns := [(0, { acts := [.resume 1 false 0 [] none] }), (1, { acts := [.status 0] })],
+    cos := [(1, { body := some 1 })] }
+
+/-- **history_simulation_full_fails** — without the guard the statement is false of the code: the main thread has no
+    Parent link, so `Status` calls it "suspended" while it waits in a resume, where the manual's automaton says
+    "normal" (the caveat of `status_automaton`; the guard `1 ≤ j` of `okProg` excludes exactly this). -/
+theorem history_simulation_full_fails : ¬ history_simulation_full := by
+  intro h
+  obtain ⟨m, hm⟩ := h exMainStatus 10 (Co.run Cfg.fixed exMainStatus 10 (initWorld exMainStatus) (.run 0)).1 "R:" (by
+    apply Prod.ext
+    · rfl
+    · rfl)
+  have hM : Co.runProg Cfg.fixed exMainStatus 10 = ["P0:", "P1:", "L1.0:s!suspended", "L0.0:T", "R:"] := by decide
+  rw [hM] at hm
+  by_cases hlt : m < 10
+  · have : ∀ m < 10, CoSpec.runProg exMainStatus m ≠ ["P0:", "P1:", "L1.0:s!suspended", "L0.0:T", "R:"] := by decide
+    exact this m hlt hm
+  · obtain ⟨k, rfl⟩ : ∃ k, m = 10 + k := ⟨m - 10, by omega⟩
+    have hfin : CoSpec.run exMainStatus 10 (CoSpec.initSt exMainStatus) .exec =
+        ((CoSpec.run exMainStatus 10 (CoSpec.initSt exMainStatus) .exec).1, .fin "R:") := by
+      apply Prod.ext
+      · rfl
+      · rfl
+    have hst := srun_stable exMainStatus 10 k _ _ _ _ hfin
+    have h10 : (CoSpec.run exMainStatus 10 (CoSpec.initSt exMainStatus) .exec).1.trace.toks "R:" =
+        ["P0:", "P1:", "L1.0:s!normal", "L0.0:T", "R:"] := by decide
+    simp only [CoSpec.runProg, hst, h10] at hm
+    revert hm; decide
+
+/-! ## 7. wrap on the history level -/
+
+/-- **wrap_error_reraised** — in every reachable state in which an error value `v` unwinds a *wrapped* coroutine `c`
+    and no `pcall` inside `c` catches it: the next step leaves `c` dead and without Parent, makes its resumer `pp` the current thread
+    again and raises the SAME value `v` in `pp` (`threadRun`'s wrapped branch with fixes/C06-wrap-error-kills). -/
+theorem wrap_error_reraised (p : Prog) (hp : okProg p = true) (n c : Nat) (v : OVal)
+    (hst : (Co.run Cfg.fixed p n (initWorld p) (.run 0)).2 = .raise c v) (hw : (p.co c).wrapped = true) (hc0 : c ≠ 0)
+    (hnp : ∀ f ∈ ((Co.run Cfg.fixed p n (initWorld p) (.run 0)).1.th c).frames, f.gk ≠ .pcall) :
+    ∃ pp, ((Co.run Cfg.fixed p n (initWorld p) (.run 0)).1.th c).parent = some pp ∧
+      ∃ w', Co.run Cfg.fixed p (n + 1) (initWorld p) (.run 0) = (w', .raise pp v) ∧ w'.current = pp ∧
+        (w'.th c).dead = true ∧ (w'.th c).parent = none ∧ (∀ l, status Cfg.fixed w' l c = "dead") := by
+  obtain ⟨m, _, hs⟩ := sim_run p hp n
+  rcases hs with ⟨tok, h1, _, _⟩ | hL
+  · rw [hst] at h1; cases h1
+  · rw [hst] at hL
+    have hcw := live_raise_lt hL
+    obtain ⟨pp, hpar, hstep⟩ := wrap_error_of_live hL hw hc0 hnp
+    have hdead : ((World.setTh (Co.run Cfg.fixed p n (initWorld p) (.run 0)).1 c
+        { ((Co.run Cfg.fixed p n (initWorld p) (.run 0)).1.th c).push v with parent := none, dead := true }).th c)
+        = { ((Co.run Cfg.fixed p n (initWorld p) (.run 0)).1.th c).push v with parent := none, dead := true } :=
+      th_setTh_eq _ _ _ hcw
+    refine ⟨pp, hpar, { (World.setTh (Co.run Cfg.fixed p n (initWorld p) (.run 0)).1 c
+        { ((Co.run Cfg.fixed p n (initWorld p) (.run 0)).1.th c).push v with parent := none, dead := true }) with
+          current := pp }, ?_, rfl, ?_, ?_, ?_⟩
+    · rw [mrun_succ, hst, hstep]
+    · show ((World.setTh _ c _).th c).dead = true
+      rw [hdead]
+    · show ((World.setTh _ c _).th c).parent = none
+      rw [hdead]
+    · intro l
+      simp only [status]
+      rw [show ∀ (x : World) (k : Nat), ({ x with current := k } : World).th c = x.th c from fun _ _ => rfl, hdead]
+      rfl
+
+/-- **wrap_dead_call_refused** — in every reachable state: calling a wrapped coroutine that is dead does not run
+    anything: the error "cannot resume dead coroutine" is raised in the caller. -/
+theorem wrap_dead_call_refused (p : Prog) (hp : okProg p = true) (n c : Nat) (f : Frame) (fs : List Frame)
+    (j a : Nat) (vals : List OVal) (want : Want) (rest : List Act)
+    (hst : (Co.run Cfg.fixed p n (initWorld p) (.run 0)).2 = .run c)
+    (hfr : ((Co.run Cfg.fixed p n (initWorld p) (.run 0)).1.th c).frames = f :: fs) (hr : f.recv = .none)
+    (hcode : f.code = .resume j false a vals want :: rest) (h1 : 1 ≤ j) (h4 : j ≤ 4)
+    (hd : ((Co.run Cfg.fixed p n (initWorld p) (.run 0)).1.th j).dead = true) (hw : (p.co j).wrapped = true) :
+    (Co.run Cfg.fixed p (n + 1) (initWorld p) (.run 0)).2 = .raise c (sym "dead") := by
+  obtain ⟨m, _, hs⟩ := sim_run p hp n
+  rcases hs with ⟨tok, h1', _, _⟩ | hL
+  · rw [hst] at h1'; cases h1'
+  · rw [hst] at hL
+    rw [mrun_succ, hst]
+    exact wrap_dead_call_of_live hL f fs j a vals want rest hfr hr hcode h1 h4 hd hw
+
+/-- non-vacuity: a wrapped coroutine fails; the error kills the calling (plain) coroutine too, whose resumer gets
+    (false, 9); afterwards the wrapped coroutine is dead and calling it again is refused in the main chunk. -/
+def exWrapHist : Prog :=
+  { fns := [(0, { acts := [.resume 2 false 0 [] none, .status 1, .status 2, .resume 1 false 0 [] none] }),
+            (1, { acts := [.err (some (.int 9))] }),
+            (2, { acts := [.resume 1 false 0 [some (.int 1)] (some 1), .ret 0 []] })],
+    cos := [(1, { wrapped := true, body := some 1 }), (2, { body := some 2 })] }
+
+example : okProg exWrapHist = true ∧
+    runProg Cfg.fixed exWrapHist 100 = ["P0:", "P2:", "P1:", "L0.0:F,i9", "L0.1:s!dead", "L0.2:s!dead", "X:s!dead"] ∧
+    CoSpec.runProg exWrapHist 100 = runProg Cfg.fixed exWrapHist 100 := by decide
+
+/-! ## 8. isolation: each coroutine keeps its own registers, frames and flags across the steps of the others -/
+
+/-- **isolation_step** — frame condition of the interpreter step, for EVERY world, control state, program and
+    configuration (no invariant needed): a thread that is neither the running one, nor its resumer (Parent), nor the
+    coroutine being resumed is left exactly as it was — every register, every call frame, every flag. -/
+theorem isolation_step (cfg : Cfg) (p : Prog) (w : World) (c : Ctl) (x : Nat) (h : ¬ touched w c x) :
+    ((step cfg p w c).1).th x = w.th x :=
+  step_same cfg p w c x h
+
+/-- **isolation_switch** — yield / return / error (`switchToParentThread`) as whole-thread equalities: the resumer
+    changes ONLY by receiving, on top of its untouched stack, the flag and the moved values (its frames, flags and
+    every register below stay); the switching thread loses exactly the moved values and the window of the popped
+    frame; every third thread is identical. -/
+theorem isolation_switch (w : World) (l p nargs : Nat) (haserror kill : Bool) (g : Frame) (ks : List Frame)
+    (hl : l < w.threads.length) (hp : p < w.threads.length) (hne : l ≠ p)
+    (hpar : (w.th l).parent = some p) (hcur : (w.th l).cur = true) (hfr : (w.th l).frames = g :: ks)
+    (hlb : g.localBase ≤ (w.th l).reg.length)
+    (hoff : g.localBase - g.returnBase ≤ (w.th l).reg.length - min nargs (w.th l).getTop) :
+    ∃ w', switchToParentThread w l nargs haserror kill = .ok w' ∧
+      w'.th p = { w.th p with reg := (w.th p).reg ++ (if (w.th l).wrapped then [] else [some (.bool !haserror)]) ++
+                        (w.th l).reg.drop ((w.th l).reg.length - min nargs (w.th l).getTop) } ∧
+      w'.th l = { w.th l with
+                  parent := none, yieldNRet := g.nret, frames := ks, cur := !ks.isEmpty,
+                  reg := (w.th l).reg.take ((w.th l).reg.length - min nargs (w.th l).getTop - (g.localBase - g.returnBase)),
+                  dead := (w.th l).dead || kill } ∧
+      (∀ t, t ≠ l → t ≠ p → w'.th t = w.th t) := by
+  obtain ⟨w', h1, _, _, _, h5, h6, h7⟩ := switch_full w l p nargs haserror kill g ks hl hp hne hpar hcur hfr hlb hoff
+  exact ⟨w', h1, h5, h6, h7⟩
+
+/-- **isolation_resume** — a later resume (`coResume` on a started thread): the resumed thread changes ONLY by its
+    Parent link and by receiving the adjusted values on top of its stack (locals, loop state and call stack — all its
+    registers and frames — are the ones it was suspended with); the resumer loses exactly the arguments. -/
+theorem isolation_resume (w : World) (l th : Nat) (body : Option (Nat × Bool × Nat))
+    (hl : l < w.threads.length) (hth : th < w.threads.length) (hne : l ≠ th)
+    (hcur : (w.th th).cur = true) (hlb : (w.th l).lbase + 1 ≤ (w.th l).reg.length) :
+    ∃ w', coResumeEnter Cfg.fixed w l th body = .ok (w', 1) ∧
+      w'.th th = { w.th th with
+                   parent := some l
+                   reg := (w.th th).reg ++ adjust ((w.th l).reg.drop ((w.th l).lbase + 1)) (w.th th).yieldNRet } ∧
+      w'.th l = { w.th l with reg := (w.th l).reg.take ((w.th l).lbase + 1) } ∧
+      (∀ t, t ≠ l → t ≠ th → w'.th t = w.th t) := by
+  obtain ⟨w', h1, _, _, _, h5, h6, h7⟩ := coResumeEnter_started_full Cfg.fixed w l th body hl hth hne hcur hlb rfl
+  exact ⟨w', h1, h5, h6, h7⟩
+
+/-- non-vacuity of `isolation_step`: while coroutine 1 (resumed by main) runs, coroutine 2 is not touched. -/
+example : ¬ touched { threads := [{ cur := true }, { parent := some 0, cur := true, frames := [{}] }, { reg := [none] }],
+                      current := 1 } (.run 1) 2 := by decide
 
 end GLua.Props.C06
